@@ -62,7 +62,7 @@ pub fn class_of(cd: &ClassDef, gid: u16) -> u16 {
         ClassDef::Format1(t) => {
             let start = t.start_glyph_id().to_u16();
             if gid < start {
-                return 1;
+                return 0;
             }
             let i = (gid - start) as usize;
             t.class_value_array().get(i).map(|c| c.get()).unwrap_or(0)
